@@ -165,7 +165,7 @@ pub fn record(rng: &mut SmallRng, n_events: usize, out: &mut dyn Write) {
     let mut left = n_events;
     while left > 0 {
         let kind = KINDS[rng.gen_range(0..KINDS.len())];
-        let len = rng.gen_range(0..=200usize);
+        let len = if rng.gen_range(0..10) == 0 { [254usize, 255, 256, 257, 258, 300, 513, 600][rng.gen_range(0..8)] } else { rng.gen_range(0..=200usize) };
         let n = if kind == "array_chunks" { [1, 2, 3, 4, 5, 8, 16][rng.gen_range(0..7)] } else if kind == "iter" || kind == "copied" { 1 }
                 else { [1, 2, 3, 7, 16, len.max(1), len + 1, usize::MAX - rng.gen_range(0..3usize), isize::MAX as usize + rng.gen_range(0..2usize),
                        (usize::MAX - len).saturating_add(rng.gen_range(0..3usize))][rng.gen_range(0..10)] };
